@@ -447,33 +447,7 @@ func freshNonNil(v ssa.Value, depth int) bool {
 
 func (a *Analysis) newSafety() *safety {
 	s := &safety{a: a, globalsNonNil: map[*ssa.Global]bool{}, tablesFresh: map[string]string{}, minSizeMemo: map[string]int64{}}
-	// globals
-	stores := map[*ssa.Global][]*ssa.Store{}
-	for fn := range a.P.AllFuncs {
-		if !a.P.InModule(fn) || fn.Blocks == nil || a.P.IsTestFile(fn.Pos()) {
-			continue
-		}
-		for _, b := range fn.Blocks {
-			for _, in := range b.Instrs {
-				if st, ok := in.(*ssa.Store); ok {
-					if g, ok := st.Addr.(*ssa.Global); ok {
-						stores[g] = append(stores[g], st)
-					}
-				}
-			}
-		}
-	}
-	for g, sts := range stores {
-		ok := len(sts) == 1
-		for _, st := range sts {
-			fn := st.Parent()
-			if !isInitFunc(fn) {
-				ok = false
-			}
-			if !freshNonNil(st.Val, 0) {
-				ok = false
-			}
-		}
+	for g, ok := range a.nonNilPtrGlobals() {
 		s.globalsNonNil[g] = ok
 	}
 	for _, t := range a.U.Tables {
@@ -2124,4 +2098,42 @@ func wrapFreeGuard(v *Val) bool {
 		return true
 	})
 	return ok
+}
+
+// nonNilPtrGlobals: the package-level variables assigned exactly once, by a package initialiser, with a fresh
+// allocation (or the result of a constructor every return of which is one): never nil once initialisation is over.
+func (a *Analysis) nonNilPtrGlobals() map[*ssa.Global]bool {
+	a.ptrGlobalsOnce.Do(func() {
+		out := map[*ssa.Global]bool{}
+		stores := map[*ssa.Global][]*ssa.Store{}
+		for fn := range a.P.AllFuncs {
+			if !a.P.InModule(fn) || fn.Blocks == nil || a.P.IsTestFile(fn.Pos()) {
+				continue
+			}
+			for _, b := range fn.Blocks {
+				for _, in := range b.Instrs {
+					if st, ok := in.(*ssa.Store); ok {
+						if g, ok := st.Addr.(*ssa.Global); ok {
+							stores[g] = append(stores[g], st)
+						}
+					}
+				}
+			}
+		}
+		for g, sts := range stores {
+			ok := len(sts) == 1
+			for _, st := range sts {
+				fn := st.Parent()
+				if !isInitFunc(fn) {
+					ok = false
+				}
+				if !freshNonNil(st.Val, 0) {
+					ok = false
+				}
+			}
+			out[g] = ok
+		}
+		a.ptrGlobals = out
+	})
+	return a.ptrGlobals
 }
